@@ -345,3 +345,41 @@ package dsl
 //@   property C06
 //@   requires newType != nil && oldType != nil
 //@   ensures generic_arguments_are_compared: (len(newType.TypeArguments) > 0 || len(oldType.TypeArguments) > 0) && typeof(result) != *TypeChangeIncompatible ==> called(getBaseDefinition)
+
+// ---- C09: individual rules. "grew" = the pass reported at least one more error. ---------------------------------
+// A map key must be a primitive scalar type (aliases are looked through by GetUnderlyingType).
+//@ spec func keyUnderlying(m *Map) Type = GetUnderlyingType(m.KeyType)
+//@ spec func keyIsPrimitive(m *Map) bool = typeof(keyUnderlying(m)) == *SimpleType && keyUnderlying(m).(*SimpleType) != nil && (keyUnderlying(m).(*SimpleType).ResolvedDefinition == nil || typeof(keyUnderlying(m).(*SimpleType).ResolvedDefinition) == PrimitiveDefinition)
+//@ func validateMaps$1
+//@   property C09
+//@   requires errorSink != nil
+//@   ensures everything_but_maps_descends: typeof(node) != *Map ==> called("dsl.(Visitor).VisitChildren")
+//@   ensures non_primitive_key_is_an_error: typeof(node) == *Map && node.(*Map) != nil && !keyIsPrimitive(node.(*Map)) ==> len(errorSink.Errors) == old(len(errorSink.Errors)) + 1
+//@   ensures primitive_key_is_accepted: typeof(node) == *Map && node.(*Map) != nil && keyIsPrimitive(node.(*Map)) ==> len(errorSink.Errors) == old(len(errorSink.Errors))
+
+// Array dimension rules are checked on every array, and the pass always descends (arrays nest inside vectors, maps ...).
+//@ func validateArrayAndVectorDimensions$1
+//@   property C09
+//@   ensures always_descends: called("dsl.(Visitor).VisitChildren")
+
+// A stream is only legal directly as a protocol step: the nearest enclosing definition must be a protocol.
+//@ func validateStreams$1
+//@   property C09
+//@   requires errorSink != nil
+//@   ensures always_descends: called("dsl.(VisitorWithContext[Node]).VisitChildren")
+//@   ensures stream_outside_protocol_is_an_error: typeof(node) == *Stream && typeof(context) != *ProtocolDefinition ==> len(errorSink.Errors) == old(len(errorSink.Errors)) + 1
+//@   ensures stream_in_protocol_is_accepted: typeof(node) == *Stream && typeof(context) == *ProtocolDefinition ==> len(errorSink.Errors) == old(len(errorSink.Errors))
+
+// Name rules: every definition other than the one being named is descended into.
+//@ func validateTypeDefinitionNames$1
+//@   property C09
+//@   ensures non_definitions_descend: !(typeof(node) == TypeDefinition) ==> called("dsl.(Visitor).VisitChildren")
+//@ func validateRecordFieldNames$1
+//@   property C09
+//@   ensures non_records_descend: typeof(node) != *RecordDefinition ==> called("dsl.(Visitor).VisitChildren")
+//@ func validateProtocolSequenceNames$1
+//@   property C09
+//@   ensures non_protocols_descend: typeof(node) != *ProtocolDefinition ==> called("dsl.(Visitor).VisitChildren")
+//@ func validateEnums$1
+//@   property C09
+//@   ensures non_enums_descend: typeof(node) != *EnumDefinition ==> called("dsl.(Visitor).VisitChildren")
